@@ -280,8 +280,23 @@ class World:
             c.send("PASS " + password)
         if multi_prefix:
             c.send("CAP REQ :multi-prefix")
-        c.send("NICK " + nick)
-        c.send("USER %s 0 * :%s" % (user, realname))
+        # the order of the registration commands rotates with the connection number (stable under replay):
+        # NICK,USER / USER,NICK / a refused NICK (taken by the monitor), USER, then the real NICK
+        order = cid % 3
+        if order == 0:
+            c.send("NICK " + nick)
+            c.send("USER %s 0 * :%s" % (user, realname))
+        elif order == 1:
+            c.send("USER %s 0 * :%s" % (user, realname))
+            c.send("NICK " + nick)
+        else:
+            c.send("NICK " + MON)
+            try:
+                c.read_until(lambda m: m.verb == "433", self.watchdog)
+            except (wire.Closed, wire.Timeout):
+                raise Inconclusive("no 433 for a nickname in use during registration")
+            c.send("USER %s 0 * :%s" % (user, realname))
+            c.send("NICK " + nick)
         if multi_prefix:
             c.send("CAP END")
         self.log(cid, "REGISTER %s %s mp=%s" % (nick, user, multi_prefix))
